@@ -171,7 +171,7 @@ def make_fault(kind: str) -> fakeapi.Fault:
 
 def run_script(script: list, cfg: dict) -> dict:
     """Run one fault script.  cfg: retries (0..2), latency (virtual s per request), consumer_delay,
-    start_paused.  Returns the record."""
+    start_paused, rv0 (initial value of the server's version counter, default 100).  Returns the record."""
     import kopf
     from kopf._cogs.aiokits import aiotoggles
     from kopf._cogs.clients import auth, watching
@@ -191,6 +191,10 @@ def run_script(script: list, cfg: dict) -> dict:
         with vloop.running(loop):
             rec = Recorder(loop)
             api = fakeapi.FakeAPI(latency=float(cfg.get('latency', 0)))
+            # resourceVersions are opaque strings for kopf; the counter starts where the scenario says (just below a
+            # power of ten: versions gain a digit inside one watch run).  FakeAPI parses them as integers, so
+            # non-numeric versions cannot be produced with it.
+            api.rv = int(cfg.get('rv0', 100))
             sess = TapSession(api.session('w'), rec)
             vault = credentials.Vault({credentials.VaultKey('k'): credentials.AiohttpSession(server='http://fake', aiohttp_session=sess)})
             auth.vault_var.set(vault)
